@@ -615,6 +615,91 @@ func crCase(c *vhlib.Ctx, total int, chunks []int, reads []int, seed int) {
 	lv.d.B.Close()
 }
 
+// creCase: the underlying connection delivers bytes TOGETHER WITH errors (io.Reader: "callers
+// should always process the n > 0 bytes returned before considering the error"): chunk i of
+// the wire carries error code errs[i] (0 none, 1 plain error, 2 io.EOF — last chunk only,
+// 3 timeout net.Error) which is returned by the Read that delivers the chunk's last byte;
+// the caller goes on reading after every error.
+func creCase(c *vhlib.Ctx, total int, chunks []int, errs []int, reads []int, seed int) {
+	lv, _, keyB := rc4Pair(uint64(seed) + 177)
+	var chs []string
+	for i, n := range chunks {
+		if errs[i] != 0 {
+			chs = append(chs, fmt.Sprintf("%d!%d", n, errs[i]))
+		} else {
+			chs = append(chs, strconv.Itoa(n))
+		}
+	}
+	ch := "-"
+	if len(chs) > 0 {
+		ch = strings.Join(chs, ",")
+	}
+	op := fmt.Sprintf("cre key=%s pos=%d seed=%d len=%d ch=%s rd=%s", vhlib.Hex(keyB), posB, seed, total, ch, sizesStr(reads))
+	c.NewCase()
+	if lv == nil {
+		c.Emit(op, "no-conn")
+		c.Violate("conn:no-rc4-pair", op, []string{op})
+		return
+	}
+	plain := pattern(seed, 0, total)
+	base := lv.d.BA.Pos()
+	for off := 0; off < total; {
+		n := 1 + (off*31+seed)%70000
+		if off+n > total {
+			n = total - off
+		}
+		lv.s.conn.Write(plain[off : off+n])
+		off += n
+	}
+	lv.d.B.CloseWrite()
+	var cuts []int
+	rerrs := map[int]error{}
+	p := base
+	for i, k := range chunks {
+		p += k
+		if p-base > total {
+			break
+		}
+		cuts = append(cuts, p)
+		if errs[i] != 0 {
+			rerrs[p] = faultErrs[errs[i]]
+		}
+	}
+	lv.d.BA.SetReadFaults(cuts, rerrs)
+	var rs []string
+	var data []byte
+	for _, k := range reads {
+		b := make([]byte, k)
+		n, err := lv.c.conn.Read(b)
+		if n == 0 && err != nil {
+			break
+		}
+		rs = append(rs, fmt.Sprintf("%d/%s", n, errTok(err)))
+		data = append(data, b[:n]...)
+	}
+	c.Emit(op, fmt.Sprintf("r=%s data=%s dec=%d left=%d", strings.Join(rs, ","), vhlib.Payload(data), posB+len(data), total-len(data)))
+	c.Count("cre", op, true)
+	// every byte handed to the caller — with or without an error — is plaintext, in order
+	if len(data) > total || !bytes.Equal(data, plain[:len(data)]) {
+		c.Violate("transparent:read:bytes-with-error", fmt.Sprintf("len %d chunks %s reads %v: the bytes returned differ from the plaintext prefix", total, ch, reads), []string{op})
+	}
+	// and the keystream is still in sync for everything that follows
+	var rest []byte
+	for {
+		b := make([]byte, 4096)
+		n, err := lv.c.conn.Read(b)
+		rest = append(rest, b[:n]...)
+		if n == 0 && err != nil {
+			break
+		}
+	}
+	if !bytes.Equal(append(append([]byte(nil), data...), rest...), plain) {
+		c.Violate("transparent:read:bytes-with-error", fmt.Sprintf("len %d chunks %s reads %v: out of sync after the errors", total, ch, reads), []string{op})
+	}
+	lv.d.A.Close()
+	lv.d.B.Close()
+}
+
 // ---------------------------------------------------------------- primitives
 
 var mseP, _ = new(big.Int).SetString("FFFFFFFFFFFFFFFFC90FDAA22168C234C4C6628B80DC1CD129024E088A67CC74020BBEA63B139B22514A08798E3404DDEF9519B3CD3A431B302B0A6DF25F14374FE1356D6D51C245E485B576625E7EC6F44C42E9A63A36210000000000090563", 16)
@@ -711,6 +796,22 @@ func replayLine(c *vhlib.Ctx, line string) {
 			}
 		}
 		cwCase(c, decSizes(m["w"]), failAt, kind, atoi(m["seed"]))
+		return
+	case "cre":
+		m := kv(ws[1:])
+		var chunks, errs []int
+		if m["ch"] != "-" {
+			for _, t := range strings.Split(m["ch"], ",") {
+				ne := strings.Split(t, "!")
+				chunks = append(chunks, atoi(ne[0]))
+				e := 0
+				if len(ne) > 1 {
+					e = atoi(ne[1])
+				}
+				errs = append(errs, e)
+			}
+		}
+		creCase(c, atoi(m["len"]), chunks, errs, decSizes(m["rd"]), atoi(m["seed"]))
 		return
 	case "cr":
 		m := kv(ws[1:])
@@ -846,6 +947,36 @@ func main() {
 			}
 		}
 		crCase(c, total, chunks, reads, next())
+	}
+	// reads that deliver bytes together with an error
+	for i := 0; i < c.N/2+8; i++ {
+		total := r.PickInt(1, 5, 100, 5000, 32768, 70000)
+		var chunks, errs, reads []int
+		for n := 0; n < total; {
+			k := 1 + r.Intn(r.PickInt(10, 2000, 40000))
+			if n+k > total {
+				k = total - n
+			}
+			e := 0
+			if r.Chance(40) {
+				e = r.PickInt(1, 3, 3)
+			}
+			n += k
+			if n == total && (i%2 == 0 || r.Chance(50)) {
+				e = 2 // the last bytes arrive together with io.EOF
+			}
+			chunks = append(chunks, k)
+			errs = append(errs, e)
+		}
+		for n := 0; n < total+10 && len(reads) < 300; {
+			k := r.PickInt(1, 7, 100, 4096, 32768, 100000)
+			reads = append(reads, k)
+			n += k
+		}
+		if i%5 == 4 && len(reads) > 2 {
+			reads = reads[:len(reads)/2] // stop early: the rest is read by the sync check
+		}
+		creCase(c, total, chunks, errs, reads, next())
 	}
 	// 4. the model's primitives against the standard library
 	primCases(c)
